@@ -44,7 +44,7 @@ def gen_env(rng, hostile_mount=False):
         "wbuf": rng.choice(WBUFS),
         "t0": 1_600_000_000_000_000 + rng.randrange(0, 150_000_000) * 1_000_000 + rng.randrange(1_000_000),
         "mount": ["m"],
-        "rootname": rng.choice(["root", "Reel A", "R", "card_01", "ünï"]),
+        "rootname": rng.choice(["root", "Reel A", "R", "card_01", "ünï", "notes", "sub", "d1", "cache", "tmp_root", "x.bak"]),
     }
     return env
 
